@@ -28,6 +28,7 @@ CapsOf(p) == CASE p = "p1" -> {<<"f", "a">>}
                [] p = "p8" -> {<<"f", "c">>}
                [] p = "p9" -> {<<"f", "a">>}
                [] p = "p10" -> {<<"f", "a">>}
+               [] p = "p11" -> {<<"f", "$:T">>}
                [] p = "bad" -> {<<"f", "zzz">>}
                [] p = "bad2" -> {<<"g", "#nope">>}
                [] p = "bad3" -> {}
